@@ -15,3 +15,6 @@ os.environ['OMP_NUM_THREADS'] = '1'
 os.environ['MKL_NUM_THREADS'] = '1'
 
 GUARD_ENV = 'LAZY_DATASET_VERIF'
+
+import logging as _logging
+_logging.getLogger('lazy_dataset').addHandler(_logging.NullHandler())
